@@ -212,10 +212,10 @@ def suite_seq(pid, tier, seed):
     rng = random.Random(seed * 1000003 + 17)
     cases = [gen.seq_case(f"s{i}", rng, length=rng.choice([6, 10, 14]), big=0.06) for i in range(n)]
     brng = random.Random(seed * 7919 + 5)
-    cases += [gen.bulk_case(f"bulk{i}", brng) for i in range(8 if tier == "quick" else 64)]
+    cases += [gen.bulk_case(f"bulk{i}", brng, large=(i % 3 == 2)) for i in range(8 if tier == "quick" else 64)]
     if tier != "quick":
         cases += gen.exhaustive_histories(4, n=2) + [c.replace("case x", "case y", 1) for c in gen.exhaustive_histories(3, n=1)]
-    real, model = both_sides(f"seq-{tier}-{seed}-{n}", cases, "plain")
+    real, model = both_sides(f"seq2-{tier}-{seed}-{n}", cases, "plain")
     R, M = run.by_case(real), run.by_case(model)
     parts = spec.get("corr", {"ret"})
     diffs, failures = [], []
@@ -675,8 +675,8 @@ def suite_conc(pid, tier, seed):
     diffs, failures, distinct = [], [], set()
     nsteps = 0
     # an injected obstacle makes a call return an error: which error type the library wraps it in is not modelled
-    # (the `R ...` lines - restart after the run - are judged by the oracle alone: the model carries no log bytes)
-    canon = lambda ls: [re.sub(r"-> err:(?!panic|BlobDataMissing)\S+.*$", "-> err:fault", re.sub(r" (I|S)=\d+", r" \1=*", l)) for l in ls[1:] if not l.startswith("R ")]
+    # (the `R ...` lines - restart after the run - and `K ...` lines - crash images - are judged by the oracle alone: the model carries no log bytes)
+    canon = lambda ls: [re.sub(r"-> err:(?!panic|BlobDataMissing)\S+.*$", "-> err:fault", re.sub(r" (I|S)=\d+", r" \1=*", l)) for l in ls[1:] if not l.startswith(("R ", "K "))]
     for c in cases:
         name = c.split("\n", 1)[0][5:]
         rl, ml = R.get(name, []), M.get(name, [])
